@@ -47,7 +47,9 @@ def idempotent(case):
                     z = Bicomplex(re + 1j * b, c + 1j * d)
                     w = Bicomplex(0.7 - 0.2j, 0.1 + 0.05j)
                     for nm, op, f in [('pow3', lambda t: t ** 3, lambda u: u ** 3), ('pow-1', lambda t: t ** -1, lambda u: 1 / u),
-                                      ('rdiv', lambda t: 1.0 / t, lambda u: 1 / u), ('pow2', lambda t: t ** 2, lambda u: u ** 2)]:
+                                      ('rdiv', lambda t: 1.0 / t, lambda u: 1 / u), ('pow2', lambda t: t ** 2, lambda u: u ** 2),
+                                      ('2/z', lambda t: 2.0 / t, lambda u: 2 / u), ('-0.5/z', lambda t: -0.5 / t, lambda u: -0.5 / u),
+                                      ('(3+1j)/z', lambda t: (3 + 1j) / t, lambda u: (3 + 1j) / u), ('z/2', lambda t: t / 2.0, lambda u: u / 2)]:
                         out = op(z)
                         s1, s2 = idem(z.z1, z.z2, f)
                         if not (np.allclose(out.z1, s1, rtol=1e-8, atol=1e-12) and np.allclose(out.z2, s2, rtol=1e-8, atol=1e-12)):
